@@ -33,12 +33,19 @@ type dupImportChecker struct {
 
 func (c *dupImportChecker) WalkFile(f *ast.File) {
 	imports := make(map[string][]*ast.ImportSpec)
+	var order []string // package paths in order of their first import
 	for _, importDcl := range f.Imports {
 		pkg := importDcl.Path.Value
+		if _, seen := imports[pkg]; !seen {
+			order = append(order, pkg)
+		}
 		imports[pkg] = append(imports[pkg], importDcl)
 	}
 
-	for _, importList := range imports {
+	// Visit the groups in source order: ranging over the map
+	// would report them in a different order on every run.
+	for _, pkg := range order {
+		importList := imports[pkg]
 		if len(importList) == 1 {
 			continue
 		}
